@@ -138,7 +138,7 @@ def make_builtins(ex):
         if sp.concrete is not None:
             yield st, st.alloc(ListP(sp.concrete))
         else:
-            yield st, AList(sp.n, sp.elem, sp.keep)
+            yield st, AList(sp.n, sp.elem, sp.keep, sp.span)
 
     @reg("dict")
     def _dict(ex, st, args, kwargs, node):
